@@ -78,7 +78,7 @@ CHECK_DEADLOCK FALSE
     return cfg
 
 
-def asm_generate_and_replay(ctx, label, cfg_kwargs, profiles, deep=False, targets=None):
+def asm_generate_and_replay(ctx, label, cfg_kwargs, profiles, deep=False, targets=None, frontends=True):
     cases = os.path.join(ctx.scratch, "asm-%s.ndjson" % label)
     ctx.tlc("AssemblerGen", asm_cfg(**cfg_kwargs), capture=cases, timeout=1500)
     args = ["assembler", "-in", cases, "-topkind", cfg_kwargs.get("topkind", "any"),
@@ -87,6 +87,8 @@ def asm_generate_and_replay(ctx, label, cfg_kwargs, profiles, deep=False, target
         args.append("-deep")
     if targets:
         args += ["-targets", ",".join(targets)]
+    if frontends:
+        args.append("-frontends")
     rep = ctx.vh_run(args)
     ctx.absorb(rep, args, label="assembler/" + label)
     os.remove(cases)
